@@ -1347,6 +1347,8 @@ def C19(ck):
             o = kzcli.level_opts(rnd) + ['-v', '0']
             cli.path_forms(rnd, k, o, ' '.join(o))
             k += 1
+            cli.path_forms(rnd, k, o, ' '.join(o) + ' names that begin with dots', shape='dotnames')
+            k += 1
         # files larger than a block at the block sizes of the high levels (8 and 16 MiB): explicit fast pipelines in the quick tier,
         # the real levels 5..9 in the thorough tier
         bigs = [(['-t', 'BWT', '-e', 'NONE', '-b', '16m', '-j', '2', '-v', '0'], [9 << 20, (5 << 20) + 3]),
